@@ -300,7 +300,13 @@ class TrafficFilter:
         Returns:
             bool: True if the IP is external, False otherwise
         """
-        return IPv4Address(ip) not in _PRIVATE_IP_RANGES.get(ip[:2], _BLACK_HOLE)
+        try:
+            address = IPv4Address(ip)
+        except ValueError:
+            # Not an IPv4 literal (e.g. IPv6): never forwarded through the Proxy.
+            return False
+
+        return address not in _PRIVATE_IP_RANGES.get(ip[:2], _BLACK_HOLE)
 
     def _is_external_domain(self, host: str) -> Optional[bool]:
         """Check whether an HOST is external or not
